@@ -57,9 +57,25 @@ pub fn short_file(f: &str) -> String {
 }
 
 pub fn mask_message(m: &str) -> String {
+    // digits masked, payloads between backticks or single quotes dropped (they quote input text)
     let mut out = String::new();
     let mut last_hash = false;
+    let mut in_tick = false;
+    let mut in_quote = false;
     for c in m.chars() {
+        if c == '`' && !in_quote {
+            in_tick = !in_tick;
+            out.push('`');
+            continue;
+        }
+        if c == '\'' && !in_tick {
+            in_quote = !in_quote;
+            out.push('\'');
+            continue;
+        }
+        if in_tick || in_quote {
+            continue;
+        }
         if c.is_ascii_digit() {
             if !last_hash {
                 out.push('#');
